@@ -15,9 +15,13 @@ int __ll2c_selector(void* tinfo) { return tinfo ? (int)(((uintptr_t)tinfo) & 0x7
 void __ll2c_unreachable(void) { __CPROVER_assert(0, "ll2c: reached IR 'unreachable'"); __CPROVER_assume(0); }
 void __ll2c_trap(void) { __CPROVER_assert(0, "ll2c: llvm.trap"); __CPROVER_assume(0); }
 void __ll2c_terminate(void) { __CPROVER_assert(0, "ll2c: std::terminate (exception escaped nounwind)"); __CPROVER_assume(0); }
-void __ll2c_memcpy(void* d, void* s, uint64_t n) { if (n) memcpy(d, s, n); }
-void __ll2c_memmove(void* d, void* s, uint64_t n) { if (n) memmove(d, s, n); }
-void __ll2c_memset(void* d, uint8_t c, uint64_t n) { if (n) memset(d, c, n); }
+// untyped fallbacks: byte loops (bounded by the unwinding limit)
+void __ll2c_memcpy(void* d, void* s, uint64_t n) { for (uint64_t i = 0; i < n; i++) ((uint8_t*)d)[i] = ((uint8_t*)s)[i]; }
+void __ll2c_memmove(void* d, void* s, uint64_t n) {
+  if ((uintptr_t)d <= (uintptr_t)s) { for (uint64_t i = 0; i < n; i++) ((uint8_t*)d)[i] = ((uint8_t*)s)[i]; }
+  else { for (uint64_t i = n; i > 0; i--) ((uint8_t*)d)[i-1] = ((uint8_t*)s)[i-1]; }
+}
+void __ll2c_memset(void* d, uint8_t c, uint64_t n) { for (uint64_t i = 0; i < n; i++) ((uint8_t*)d)[i] = c; }
 // C++ runtime
 uint8_t* _Znwm(uint64_t n) { uint8_t* p = malloc(n); __CPROVER_assume(p != 0); return p; }
 uint8_t* _Znam(uint64_t n) { uint8_t* p = malloc(n); __CPROVER_assume(p != 0); return p; }
